@@ -157,7 +157,7 @@ def scan_leg(rep, srcdir, tier):
     cfgs = [dict(NWords={3, 6}, Fillers={1, 2}, Offsets=full, MaxPlants=1, Starts={0, 5, 32, 63}, Skips={0, 33, 100}, Misses={24, 47}),
             dict(NWords={6}, Fillers={0}, Offsets={0, 3, 40, 81, 90, 112}, MaxPlants=2, Starts={0, 1, 31}, Skips={0, 64}, Misses=set())]
     if tier == "thorough":
-        cfgs = [dict(NWords={3, 4, 6}, Fillers={0, 1, 2}, Offsets=full, MaxPlants=1, Starts=set(range(0, 64, 7)) | {63}, Skips={0, 1, 32, 33, 64, 100},
+        cfgs = [dict(NWords={3, 4, 6}, Fillers={0, 1, 2}, Offsets=full, MaxPlants=1, Starts=set(range(0, 64, 13)) | {63}, Skips={0, 1, 32, 33, 64, 100},
                      Misses={1, 24, 47}),
                 dict(NWords={6}, Fillers={1}, Offsets=set(range(0, 146, 5)), MaxPlants=1, Starts=set(range(0, 64, 3)), Skips={0, 31, 130},
                      Misses={8, 40, 46}),
